@@ -388,7 +388,8 @@ def g_drain(rng):
     if how == "shutdown_wait":
         ops += pre + [{"op": "shutdown", "ex": "e", "wait": True}, post_submit, {"op": "census", "after_shutdown": True, "grace": 5.0}]
     elif how == "shutdown_nowait":
-        ops += pre + [{"op": "shutdown", "ex": "e", "wait": False}, post_submit, {"op": "join_mgr", "ex": "e"}, {"op": "census", "after_shutdown": True, "grace": 5.0}]
+        second = {"op": "shutdown", "ex": "e", "wait": True} if rng.random() < 0.5 else {"op": "join_mgr", "ex": "e"}
+        ops += pre + [{"op": "shutdown", "ex": "e", "wait": False}, post_submit, second, {"op": "census", "after_shutdown": True, "grace": 5.0}]
     elif how == "with":
         ops += [{"op": "with", "ex": "e", "body": pre}, post_submit, {"op": "census", "after_shutdown": True, "grace": 5.0}]
     elif how == "del":
@@ -437,11 +438,15 @@ def g_idle(rng):
                 {"op": "sleep", "d": round(min(1.5, 4 * tmo + 0.05), 3)},
                 {"op": "submit", "ex": "e", "task": {"k": "rendezvous", "n": 2, "grp": "dep", "dir": "$RES", "patience": 15.0, "hold": 0.05}}]
     ops += [{"op": "wait", "futs": "all"}, {"op": "quiesce", "ex": ["e"]}]
-    ending = rng.choice(["shutdown", "exit", "shutdown", "nowait"])
+    ending = rng.choice(["shutdown", "exit", "shutdown", "nowait", "exit_pending"])
     if ending == "shutdown":
         ops.append({"op": "shutdown", "ex": "e", "wait": True})
     elif ending == "nowait":
         ops += [{"op": "shutdown", "ex": "e", "wait": False}, {"op": "join_mgr", "ex": "e"}]
+    elif ending == "exit_pending":
+        # the script ends while slow-to-pickle work is still on its way: every timer fires during interpreter exit
+        for _ in range(rng.randint(2, 4)):
+            ops.append({"op": "submit", "ex": "e", "task": t_slow_pickle(rng, round(min(0.5, 3 * tmo + 0.05), 3))})
     prog = {"threads": [ops], "end": "return"}
     return prog, {"gen": "g_idle", "kind": kind, "kw": kw, "ending": ending}
 
@@ -976,6 +981,15 @@ def g_tree(rng):
     elif variant == "kill_worker":
         ops.append({"op": "kill", "ex": "e", "which": 0, "sig": rng.choice(["SIGKILL", "SIGTERM"])})
         ops.append({"op": "sleep", "d": 0.2})
+    threads_extra = []
+    if variant == "kill_tracker" and rng.random() < 0.5:
+        nth = rng.randint(2, 4)
+        ops.append({"op": "tracker", "what": "kill"})
+        ops.append({"op": "barrier", "name": "tk"})
+        ops.append({"op": "tracker", "what": "register_file", "name": "resc0"})
+        for j in range(1, nth):
+            threads_extra.append([{"op": "barrier", "name": "tk"}, {"op": "tracker", "what": rng.choice(["register_file", "register_file", "mk_sem"]), "name": "resc%d" % j, "obj": "sc%d" % j}])
+        ops.append({"op": "sleep", "d": 0.3})
     end = "return"
     if variant == "root_first":
         # keep workers busy so that they outlive the root by at least a second
@@ -989,4 +1003,7 @@ def g_tree(rng):
         ops.append({"op": "sleep", "d": 0.2})
     ops.append({"op": "tracker", "what": "ensure", "final": True})
     main_tracked = rng.random() < 0.4
-    return {"threads": [ops], "end": end}, {"gen": "g_tree", "depth": depth, "variant": variant, "kw": kw, "main_level_tracked": main_tracked}
+    prog = {"threads": [ops] + threads_extra, "end": end}
+    if threads_extra:
+        prog["barriers"] = {"tk": 1 + len(threads_extra)}
+    return prog, {"gen": "g_tree", "depth": depth, "variant": variant, "kw": kw, "main_level_tracked": main_tracked, "racing_relaunch": bool(threads_extra)}
